@@ -463,7 +463,11 @@ class InProtocolBase(ProtocolMixin):
                 # the sign belongs to the whole offset, not just to the hours
                 if match.group("tz_hr").startswith('-'):
                     tz_min = -tz_min
-                tz = FixedOffset(tz_hr * 60 + tz_min, {})
+                try:
+                    tz = FixedOffset(tz_hr * 60 + tz_min, {})
+                except ValueError as e:
+                    # pytz: absolute offset is too large
+                    raise ValidationError(string, "%%r: %s" % e)
                 retval = _parse_datetime_iso_match(match, tz=tz)
                 if astz is not None:
                     retval = retval.astimezone(astz)
